@@ -89,6 +89,7 @@ class _State:
     sleeps = None
     jitter = None
     jitter_ok = True
+    delays = None
 
 
 class _AsyncioProxy:
@@ -122,21 +123,16 @@ U.time_msecs = lambda: 0
 U.log = _SilentLog()
 
 REAL_LOOP = U.retry_transient_errors_with_debug_string
+_REAL_DELAY = U.delay_ms_for_try
 
 
-# ------------------------------------------------------------------------------------------------
-# the "cut" loop: the real function with its log.<level>(...) statements removed (their f-strings format the
-# symbolic float `delay`, which CrossHair can only do by enumerating its values).  Compiled in memory in U's namespace.
-class _StripLog(ast.NodeTransformer):
-    n = 0
+def _delay_recorder(*a, **k):
+    ms = _REAL_DELAY(*a, **k)
+    _State.delays.append((a, k, ms))
+    return ms
 
-    def visit_Expr(self, node):
-        v = node.value
-        if (isinstance(v, ast.Call) and isinstance(v.func, ast.Attribute) and isinstance(v.func.value, ast.Name)
-                and v.func.value.id == 'log'):
-            _StripLog.n += 1
-            return ast.Pass()
-        return node
+
+U.delay_ms_for_try = _delay_recorder
 
 
 def _func_node(tree, name):
@@ -148,19 +144,6 @@ def _func_node(tree, name):
 
 _TEXT = loader.read(SRC)
 _TREE = ast.parse(_TEXT)
-
-
-def _make_cut():
-    node = _func_node(_TREE, LOOP)
-    _StripLog.n = 0
-    new = _StripLog().visit(ast.parse(ast.get_source_segment(_TEXT, node)))
-    ast.fix_missing_locations(new)
-    ns = {}
-    exec(compile(new, f'<cut {LOOP}>', 'exec'), U.__dict__, ns)
-    return ns[LOOP], _StripLog.n
-
-
-CUT_LOOP, N_LOG_CUT = _make_cut()
 
 
 # ------------------------------------------------------------------------------------------------
@@ -350,9 +333,25 @@ BASE_MS = U.DEFAULT_BASE_DELAY_MS
 MAX_MS = U.DEFAULT_MAX_DELAY_MS
 
 
-def drive(loop_fn, excs, jitter):
-    """Run loop_fn('dbg', 0, f) where call i of f raises excs[i] (i < len) and then returns SENTINEL.
-    Returns (outcome, raised_obj, n_calls, sleeps, jitter_ok)."""
+def jitter_range(tries):
+    """largest legal draw for the `tries`-th failure: randrange(c//2 + 1)"""
+    return (BASE_MS * 2 ** min(tries, U.LOG_2_MAX_MULTIPLIER)) // 2
+
+
+def jitter_list(jsel, n):
+    """jitter draws for n failures: all minimal (jsel 0), all mid-range (1) or all maximal (2).  jsel is compared,
+    never used in arithmetic: the loop divides the delay by 1000.0, which would realise a symbolic integer.  All
+    draws of randrange are covered by the separate z3 proof about delay_ms_for_try."""
+    if jsel == 0:
+        return [0 for i in range(n)]
+    if jsel == 1:
+        return [jitter_range(i + 1) // 2 for i in range(n)]
+    return [jitter_range(i + 1) for i in range(n)]
+
+
+def drive(excs, jitter):
+    """Run the real loop as loop('dbg', 0, f) where call i of f raises excs[i] (i < len) and then returns SENTINEL.
+    Returns (outcome, raised_obj, n_calls, sleeps, jitter_ok, delays)."""
     calls = [0]
 
     async def f():
@@ -363,9 +362,10 @@ def drive(loop_fn, excs, jitter):
         return SENTINEL
 
     _State.sleeps = []
+    _State.delays = []
     _State.jitter = list(jitter)
     _State.jitter_ok = True
-    coro = loop_fn('dbg', 0, f)
+    coro = REAL_LOOP('dbg', 0, f)
     outcome, raised = 'suspended', None
     try:
         coro.send(None)
@@ -378,7 +378,7 @@ def drive(loop_fn, excs, jitter):
         outcome, raised = 'raised', e
     except Exception as e:
         outcome, raised = 'raised', e
-    return outcome, raised, calls[0], _State.sleeps, _State.jitter_ok
+    return outcome, raised, calls[0], _State.sleeps, _State.jitter_ok, _State.delays
 
 
 def expected_retry(e, tries):
@@ -398,7 +398,7 @@ def delay_in_bounds(d, tries):
     return lo / 1000.0 <= d <= hi / 1000.0
 
 
-def check_sequence(loop_fn, excs, jitter):
+def check_sequence(excs, jitter):
     """Oracle for one failure sequence.  Returns a string naming the first discrepancy, or ''."""
     # expected: index of the first exception that is not retried (or len(excs))
     stop = len(excs)
@@ -406,7 +406,7 @@ def check_sequence(loop_fn, excs, jitter):
         if not expected_retry(e, i + 1):
             stop = i
             break
-    outcome, raised, ncalls, sleeps, jok = drive(loop_fn, excs, jitter)
+    outcome, raised, ncalls, sleeps, jok, delays = drive(excs, jitter)
     if not jok:
         return 'harness: jitter draw outside randrange range'
     if stop == len(excs):
@@ -422,23 +422,32 @@ def check_sequence(loop_fn, excs, jitter):
         if ncalls != stop + 1:
             return f'expected {stop + 1} calls, got {ncalls}'
     if len(sleeps) != stop:
-        return f'expected {stop} sleeps, got {len(sleeps)}'
+        return f'expected {stop} sleeps (one per retried failure), got {len(sleeps)}'
     for j, d in enumerate(sleeps):
         if not delay_in_bounds(d, j + 1):
             return f'sleep {j + 1} = {d}s outside the jittered exponential bounds'
+    # every sleep is delay_ms_for_try(<number of failures so far>) / 1000 with the default base and maximum, so the
+    # z3 proof about delay_ms_for_try (all tries, all draws) applies to it
+    used = [x for x in delays[:stop]]
+    for j in range(stop):
+        if j >= len(used):
+            return f'sleep {j + 1} was not computed by delay_ms_for_try'
+        a, k, ms = used[j]
+        if a != (j + 1,) or k != {}:
+            return f'delay_ms_for_try called with {a} {k} for failure {j + 1}'
+        if sleeps[j] != ms / 1000.0:
+            return f'sleep {j + 1} = {sleeps[j]}s is not delay_ms_for_try({j + 1})/1000 = {ms / 1000.0}s'
     return ''
 
 
-def jitter_range(tries):
-    """largest legal draw for the `tries`-th failure: randrange(c//2 + 1)"""
-    return (BASE_MS * 2 ** min(tries, U.LOG_2_MAX_MULTIPLIER)) // 2
-
-
 # ---- obligation family A: position sweep ---------------------------------------------------------
-def sweep(cut, t, kind, p, s, depth, rs):
+def sweep_excs(t, kind, p, s, depth):
+    return [U.TransientError() for _ in range(t - 1)] + [make_exc(kind, p, s, depth)]
+
+
+def sweep(t, kind, p, s, depth, jsel):
     """t-1 TransientError failures, then catalogue exception (kind, p, s, depth) as failure t, then success."""
-    excs = [U.TransientError() for _ in range(t - 1)] + [make_exc(kind, p, s, depth)]
-    return check_sequence(CUT_LOOP if cut else REAL_LOOP, excs, rs)
+    return check_sequence(sweep_excs(t, kind, p, s, depth), jitter_list(jsel, t))
 
 
 # ---- obligation family B: sequences over representative kinds -------------------------------------
@@ -463,7 +472,7 @@ def representatives():
     return reps
 
 
-def _seq_excs(n, kinds):
+def seq_excs(n, kinds):
     excs = []
     for i in range(n):
         k, p0, s = _pick(REPS_LIST, kinds[i])
@@ -471,13 +480,9 @@ def _seq_excs(n, kinds):
     return excs
 
 
-def seq(cut, n, kinds, rs):
+def seq(n, kinds, jsel):
     """n failures; failure i is the representative REPS_LIST[kinds[i]] (kinds[i] symbolic)."""
-    return check_sequence(CUT_LOOP if cut else REAL_LOOP, _seq_excs(n, kinds), rs)
-
-
-def seq_outcome(cut, n, kinds, rs):
-    return drive(CUT_LOOP if cut else REAL_LOOP, _seq_excs(n, kinds), rs)[0]
+    return check_sequence(seq_excs(n, kinds), jitter_list(jsel, n))
 
 
 REPS = representatives()
